@@ -206,6 +206,11 @@ func GoKind(kind string, f func()) *Task {
 		s.park(t, 0, "start")
 		f()
 	}()
+	if kind == "lib" && parent != nil {
+		// a go statement is a scheduling point for the spawning goroutine too: on another processor
+		// the new goroutine may run before the statement after the go is executed
+		Yield(-40, "after-go")
+	}
 	return t
 }
 
